@@ -118,7 +118,7 @@ def check(ctx):
         ctx.evaluations += 1
         scen = re.search(r'scen=(\S+)', c).group(1)
         sched.setdefault(scen, []).append(v)
-        want = {'uu': ('uu', KF_UU), 'lost': ('micro', KF_LOST)}[scen]
+        want = {'uu': ('uu', KF_UU), 'uuasync': ('uu', KF_UU), 'lost': ('micro', KF_LOST)}[scen]
         if v == 'ok':
             ctx.notes.append(f'scripted schedule {scen} is now linearizable: {c}')
         elif v == want[0] and want[1] in reproduced:
